@@ -57,8 +57,7 @@ func failf(kind, format string, a ...interface{}) *Fail {
 type Slot struct {
 	ID    uint32  // ordinal of the allocation inside its Tracker; seeds the fill pattern
 	Size  int     // requested size
-	P     *[]byte // what Malloc (or the relocation callback) returned
-	Hdr   uintptr // uintptr(P): where the allocator keeps the slice header
+	Hdr   uintptr // address Malloc (or the relocation callback) returned: where the allocator keeps the slice header
 	Data  uintptr // data pointer read from the header when it was returned
 	Cap   int     // capacity read from the header when it was returned
 	Moved int     // number of relocations seen for this allocation
@@ -68,6 +67,11 @@ type Slot struct {
 	// execution of the same deterministic prefix has already judged).
 	unfilled bool
 }
+
+// P is the *[]byte the allocator handed out. It is kept as an address (the memory
+// is mapped, not Go heap) so that slot tables contain no pointers for the Go
+// garbage collector to chase.
+func (s *Slot) P() *[]byte { return (*[]byte)(unsafe.Pointer(s.Hdr)) }
 
 // ranges returns the address ranges that make up the allocation's footprint.
 func (s *Slot) ranges() [][2]uintptr {
@@ -194,13 +198,24 @@ func NewTracker(a *memory.Allocator, salt uint32) *Tracker {
 	return &Tracker{A: a, Salt: salt}
 }
 
+// Reset forgets everything (the allocator has been discarded or reset); buffers
+// are kept for the next execution.
+func (t *Tracker) Reset(a *memory.Allocator) {
+	t.A = a
+	t.Live = t.Live[:0]
+	t.BG = t.BG[:0]
+	t.bgr = t.bgr[:0]
+	t.nextID = 0
+	t.Ops = 0
+}
+
 func (t *Tracker) seedOf(id uint32) uint64 {
 	return splitmix(uint64(t.Salt)<<32 | uint64(id))
 }
 
 // adopt reads the header behind p and builds the Slot (no checks).
 func (t *Tracker) adopt(p *[]byte, size int) Slot {
-	s := Slot{ID: t.nextID, Size: size, P: p, Hdr: uintptr(unsafe.Pointer(p))}
+	s := Slot{ID: t.nextID, Size: size, Hdr: uintptr(unsafe.Pointer(p))}
 	t.nextID++
 	s.seed = t.seedOf(s.ID)
 	s.Cap = cap(*p)
@@ -297,15 +312,15 @@ func (t *Tracker) FreeBG(i int) *Fail {
 		return f
 	}
 	t.BG = append(t.BG[:i], t.BG[i+1:]...)
-	t.A.Free(s.P)
+	t.A.Free(s.P())
 	return nil
 }
 
 // CheckSlot verifies one live slot: the header the caller's pointer designates
 // is unchanged (data pointer, len, cap) and the bytes are the pattern.
 func (t *Tracker) CheckSlot(s *Slot) *Fail {
-	b := *s.P
-	if len(b) != s.Size || cap(b) != s.Cap || dataPtr(s.P) != s.Data {
+	b := *s.P()
+	if len(b) != s.Size || cap(b) != s.Cap || dataPtr(s.P()) != s.Data {
 		return failf("header-changed", "live allocation #%d size %d: slice header is now (len %d, cap %d), was (len %d, cap %d)",
 			s.ID, s.Size, len(b), cap(b), s.Size, s.Cap)
 	}
@@ -329,7 +344,7 @@ func (t *Tracker) Free(s *Slot) *Fail {
 	for i, l := range t.Live {
 		if l == s {
 			t.Live = append(t.Live[:i], t.Live[i+1:]...)
-			t.A.Free(s.P)
+			t.A.Free(s.P())
 			return nil
 		}
 	}
@@ -342,7 +357,7 @@ func (t *Tracker) SealBG() *Fail {
 	for _, s := range t.Live {
 		t.BG = append(t.BG, *s)
 	}
-	t.Live = nil
+	t.Live = t.Live[:0]
 	t.bgr = t.bgr[:0]
 	sorted := true
 	for i := range t.BG {
@@ -527,7 +542,7 @@ func (t *Tracker) Defrag(others ...*Tracker) (*DefragReport, *Fail) {
 		delete(byHdr, oh)
 		byHdr[nh] = s
 		rep.Relocs = append(rep.Relocs, Reloc{Slot: s, Old: oh, New: nh})
-		s.P, s.Hdr, s.Moved = n, nh, s.Moved+1
+		s.Hdr, s.Moved = nh, s.Moved+1
 		s.Cap = cap(*n)
 		s.Data = dataPtr(n)
 		if t.Touched != nil {
